@@ -190,6 +190,7 @@ class Profile(object):
   use_augassign = True
   use_tuple_assign = True
   use_unusual = False
+  comp_shadow = False       # C08: comprehensions whose first iterable mentions the target's own name
   hostile_finally = False   # C05 only: try statements and jumps inside finally blocks
 
   def __init__(self, **kw):
@@ -215,6 +216,8 @@ def profile(name):
     return Profile(name='c05', unsafe_reads=0.0, implicit_exc=0.0, use_loop_else=True, hostile_finally=True)
   if name == 'c06':
     return Profile(name='c06', unsafe_reads=0.0, implicit_exc=0.0, use_factory=False)
+  if name == 'c08':
+    return Profile(name='c08', unsafe_reads=0.0, implicit_exc=0.0, use_factory=False, comp_shadow=True)
   if name == 'c07':
     return Profile(name='c07', unsafe_reads=0.0, implicit_exc=0.0, use_factory=False, lambda_later=False)
   if name == 'c11':
@@ -961,6 +964,15 @@ class Gen(object):
     e = self.fresh('e')
     r = self.rng.random()
     elt = '%s + %s' % (e, self.atom(fc, blk, False))
+    if self.p.comp_shadow and self.chance(0.5):
+      cands = sorted(n for n in blk.defined if n in fc.localpool)
+      if cands:
+        w = self.rng.choice(cands)
+        form = self.rng.choice(['sum([%(w)s + %(k)s for %(w)s in [%(w)s, %(k)s]])', 'sum(%(w)s * 2 for %(w)s in (%(w)s,))',
+                                'len({%(w)s: %(k)s for %(w)s in range(%(w)s %% 3)})', 'max({%(w)s for %(w)s in [%(k)s, %(w)s]})'])
+        self.emit(ind, '%s = %s' % (v, form % {'w': w, 'k': self.atom(fc, blk, False)}))
+        blk.defined.add(v)
+        return
     if self.p.use_T and self.chance(0.5):
       elt = 'T(%r, %s)' % (self.newtag(), elt)
     if r < 0.4:
